@@ -39,8 +39,9 @@ def run(seed, props):
 def main():
     seed = sys.argv[1]
     props = [a for a in sys.argv[2:]] or PROPS
-    seeds = sorted(os.listdir(os.path.join(HERE, 'seeded'))) if seed == 'all' \
-        else [seed]
+    sdir = os.path.join(HERE, 'seeded')
+    seeds = sorted(d for d in os.listdir(sdir) if os.path.isfile(
+        os.path.join(sdir, d, 'patch.diff'))) if seed == 'all' else [seed]
     import concurrent.futures
     with concurrent.futures.ThreadPoolExecutor(max_workers=6) as ex:
         for s, r in zip(seeds, ex.map(lambda s: run(s, props), seeds)):
